@@ -10,6 +10,7 @@
 #include <string.h>
 #include <limits.h>
 #include <float.h>
+#include <stdint.h>
 
 /* ---- exceptions (DESIGN 3.3): code recorded in ghost, control returns ---- */
 extern int verif_exc;
